@@ -26,7 +26,7 @@ ASSUMPTIONS = [
     "FFNS/FFN0 total and heavy observables are not in the domain (intrinsic heavy-quark rows are not a massless "
     "parton-model quantity); CC heavy is covered by C09",
 ]
-BUDGET = {"quick": {"examples": 6000, "wall": 300}, "thorough": {"examples": 160000, "wall": 2400}}
+BUDGET = {"quick": {"examples": 6000, "wall": 300}, "thorough": {"examples": 400000, "wall": 2400}}
 MANDATORY = {
     t: ["nontrivial", "polarised-beam", "antiparticle", "ckm:generated", "node", "offnode", "nf:3", "nf:4", "nf:5", "nf:6",
         "process:EM", "process:NC", "process:CC", "heavylight", "target:ZA"]
